@@ -620,6 +620,35 @@ fn token_binder(cfg: &Cfg, rep: &mut Report, h: u64, steps: usize, to_max: bool)
     // addresses are compared by the host; their XDR form hashes natively (10 000 look-ups per step)
     let sc = |a: &Address| -> soroban_sdk::xdr::ScAddress { a.try_into().unwrap() };
     let idx_of: std::collections::HashMap<soroban_sdk::xdr::ScAddress, usize> = toks.iter().enumerate().map(|(i, a)| (sc(a), i)).collect();
+    // The capacity run fills the binder with single binds first. (It used to fill up in batches of 200 and
+    // to go on batching at the limit: `bind_tokens` builds a map of everything already bound by ten
+    // thousand `set` calls, each of which leaves a copy behind in the host's object table until the
+    // environment is dropped - some 800 MB per call at full capacity, and the shard was killed for lack of
+    // memory in the last thorough pass. Single binds only scan buckets; batches at the limit are rationed.)
+    let mut batches_at_capacity = 0u32;
+    if to_max {
+        while bound.len() < 9_990 {
+            let mut x = next_fresh % universe;
+            while is_bound[x] {
+                x = (x + 1) % universe;
+            }
+            next_fresh += 1;
+            let r: Result<(), Fail> = invoke(e, &c, "bind_token", args!(e, toks[x].clone()));
+            rep.evaluations += 1;
+            rep.check("ref", r.is_ok(), "C20/ref/token-binder/outcome", || format!("bind_token(T{x}) while filling up, count {}: {r:?}", bound.len()));
+            if r.is_err() {
+                break;
+            }
+            bound.push(x);
+            is_bound[x] = true;
+            if bound.len() % 2500 == 0 {
+                let last: Result<Address, Fail> = invoke(e, &c, "get_token_by_index", args!(e, bound.len() as u32 - 1));
+                let beyond: Result<Address, Fail> = invoke(e, &c, "get_token_by_index", args!(e, bound.len() as u32));
+                rep.check("ref", last.is_ok() && beyond.is_err(), "C20/ref/token-binder/get_token_by_index", || format!("while filling up, {} bound: index len-1 -> {}, index len -> {}", bound.len(), tag(&last), tag(&beyond)));
+            }
+        }
+        rep.op(format!("filled up to {} with single binds", bound.len()));
+    }
     for step in 0..steps {
         // (rarely) far beyond every lifetime extension the library asks for: a registry must not forget
         if rng.chance(1, 40) {
@@ -627,10 +656,17 @@ fn token_binder(cfg: &Cfg, rep: &mut Report, h: u64, steps: usize, to_max: bool)
             rep.count("ledger_jumps");
         }
         let mut k = rng.below(100);
-        // the capacity run fills up in large batches first and then stays near the limit
+        // the capacity run stays near the limit
         let far_from_limit = to_max && bound.len() + 200 < 10_000;
         if far_from_limit && rng.chance(9, 10) {
             k = 30;
+        }
+        if to_max && (20..55).contains(&k) {
+            if batches_at_capacity >= 12 {
+                k = 10; // a single bind instead
+            } else {
+                batches_at_capacity += 1;
+            }
         }
         let (desc, want, r): (String, bool, Result<(), Fail>);
         if k < 20 {
@@ -667,9 +703,10 @@ fn token_binder(cfg: &Cfg, rep: &mut Report, h: u64, steps: usize, to_max: bool)
                 n = *rng.pick(&[200usize, 200, 199, 150, 101]);
             }
             let mut exact = false;
-            if to_max && room >= 1 && room <= 200 && rng.chance(3, 4) {
-                n = if rng.chance(1, 2) { room } else { (room + 1).min(200) };
-                exact = n == room;
+            if to_max && room <= 199 {
+                // the rationed batches at the limit alternate: exactly the room left / one more than that
+                n = if batches_at_capacity % 2 == 1 && room >= 1 { room } else { room + 1 };
+                exact = true;
             }
             let mut batch: Vec<usize> = if to_max {
                 // most of the universe ends up bound: take tokens that are not
@@ -1279,7 +1316,7 @@ pub fn run(cfg: &Cfg, rep: &mut Report) {
         // capacity runs: one shard each (a batch of 200 costs the contract 200 x count/100 bucket reads:
         // filling the binder takes minutes, which the quick tier does not have)
         if cfg.shard == 0 && cfg.runs(900_001) {
-            token_binder(cfg, rep, 900_001, 400, true);
+            token_binder(cfg, rep, 900_001, 120, true);
         }
         if cfg.shard == 1 && cfg.runs(900_002) {
             documents(cfg, rep, 900_002, 5_800, true);
